@@ -120,6 +120,9 @@ pub mod degenerate {
     pub const WORDS: GenericArray<u32, U2> = unsafe { generic_array::const_transmute::<GenericArray<u8, U8>, GenericArray<u32, U2>>(GenericArray::from_array([1, 2, 3, 4, 5, 6, 7, 8])) };
     pub const BYTES: GenericArray<u8, U8> = unsafe { generic_array::const_transmute::<GenericArray<u64, U1>, GenericArray<u8, U8>>(GenericArray::from_array([0x0807060504030201u64])) };
     const LONG: GenericArray<u8, generic_array::typenum::Sum<U1024, U1>> = arr![0x5A; generic_array::typenum::Sum<U1024, U1>];
+    // the fallible reinterpretation for N = 0: an empty slice is accepted, a non-empty one is refused (not a panic of the const evaluator)
+    pub const TRY0: [bool; 4] = [GenericArray::<u32, U0>::try_from_slice(&[]).is_ok(), GenericArray::<u32, U0>::try_from_slice(&[1, 2]).is_err(),
+                                 GenericArray::<u8, U0>::try_from_slice(&[]).is_ok(), GenericArray::<(), U0>::try_from_slice(&[()]).is_err()];
     pub const LONG_ENDS: [u8; 3] = [LONG.as_slice()[0], LONG.as_slice()[1024], (LONG.as_slice().len() == 1025) as u8];
     harness! { unwind 6, fn transmutes() {
         assert!(WORD == u32::from_ne_bytes([0x11, 0x22, 0x33, 0x44]), "const_transmute to a more aligned type differs from the bytes");
@@ -130,6 +133,9 @@ pub mod degenerate {
         let rt: u32 = unsafe { generic_array::const_transmute::<[u8; 4], u32>([0x11, 0x22, 0x33, 0x44]) };
         assert!(rt == WORD, "const_transmute at run time differs from the const item");
         assert!(LONG_ENDS[0] == 0x5A && LONG_ENDS[1] == 0x5A && LONG_ENDS[2] == 1);
+        let t = any_upto(3);
+        assert!(TRY0[t], "try_from_slice for N = 0 in a const item: empty accepted, non-empty refused");
+        assert!(GenericArray::<u32, U0>::try_from_slice(&[]).is_ok() && GenericArray::<u32, U0>::try_from_slice(&[1, 2]).is_err());
         kani_cover!(true);
     }}
     harness! { unwind 6, fn agrees() {
